@@ -30,9 +30,14 @@ def weight(k, j, kd):          # must agree with Dags!Weight (j is 1-based)
     return 1 if kd == "alias" else 2 + ((3 * k + j) % 5)
 
 
+_READ_ONLY = True      # every fourth case runs with writeable caller arrays (snapshots only): a read-only flag changes NumPy's own
+                       # copy decisions (np.require, ufunc.at) and can hide an in-place write into caller memory
+
+
 def frozen(a):
     a = onp.array(a, dtype=float)
-    a.flags.writeable = False
+    if _READ_ONLY:
+        a.flags.writeable = False
     return a
 
 
@@ -185,6 +190,8 @@ class Run:
 
     # ------------------------------------------------------------------ the session
     def run(self):
+        global _READ_ONLY
+        _READ_ONLY = self.case["id"] % 4 != 3
         x = frozen([1.0, 2.0])
         snap_x = x.copy()
         out = {"id": self.case["id"], "args": self.args, "opaque": bool(self.case.get("builtin"))}
@@ -203,7 +210,7 @@ class Run:
             if self.case.get("intcot"):
                 # a cotangent of integer dtype is still a cotangent: accumulation must not happen in its dtype
                 g = onp.array([c["g"], 2 * c["g"]], dtype=onp.int64)
-                g.flags.writeable = False
+                g.flags.writeable = not _READ_ONLY
             cots.append((g, g.copy()))
             self.events.append({"e": "call", "g": c["g"]})
             self.call_applies = 0
